@@ -90,10 +90,9 @@ Definition plain_value (tpl : list part) (pid : list Z) (ctx idx : Z) : result Z
 (* defaults chosen by UniqueId.Functions.NumericIdGenerator / AlphaCodeGenerator *)
 Definition default_numeric_tpl (big : bool) : list part :=
   if big then [PPid; PContext; PIndex] else [PContext; PIndex].
-(* since fix 73af7bb the small-id default of AlphaCodeGenerator contains the context as well
-   (it used to be `index` alone: every default alpha generator emitted the same codes) *)
+(* the small-id default of AlphaCodeGenerator is `index` alone (no context): known finding K5 *)
 Definition default_alpha_tpl (big : bool) : list part :=
-  if big then [PPid; PContext; PIndex] else [PContext; PIndex].
+  if big then [PPid; PContext; PIndex] else [PIndex].
 Definition factory_tpl (dflt : list part) (user : option (list part)) : list part :=
   match user with Some t => t | None => dflt end.
 
@@ -303,7 +302,8 @@ Definition process_draws (mask : Z -> Z -> Z) (nbits : Z -> Z) (gens : list dgen
 
 (* A default alpha generator of one process (made by `unique_alpha_code` or by
    `UniqueId.AlphaCodeGenerator` without a template): id mode, pid, context number, min_chars
-   and the number of codes drawn so far (its counter starts at alpha_start). *)
+   and the number of codes drawn so far (its counter starts at alpha_start).  The distinctness
+   theorem about these (C13_pipeline_alpha_process_big_mode) needs ag_big = true: see K5. *)
 Record agen := mkAgen { ag_big : bool; ag_pid : list Z; ag_ctx : Z; ag_min_chars : Z; ag_n : nat }.
 
 Definition agen_draws (mask : Z -> Z -> Z) (nbits bpc : Z -> Z) (abc : list Z) (rc : bool) (g : agen)
